@@ -21,6 +21,7 @@ import mbox_util as mu
 
 FIFO_KINDS = ["unbounded", "segmented", "bounded", "nbbounded", "fair"]
 FAIR_STALL = "UnboundedFairMailbox:sender-deactivated-while-producer-mid-link"
+SEG_REUSE = "segmented:pooled-segment-reuse:stale-tail-producer"
 
 
 def E(i, s, p=0, b=0):
@@ -263,8 +264,11 @@ def run(ctx):
         msgs += s["Handled"]
         for v in s.get("Violations") or []:
             sig = v["Sig"]
-            if sig == "fair:stuck-at-quiescence:real-actors":
+            if sig == "fair:stuck-at-quiescence:real-actors" or (s["Cfg"]["K"] == "fair" and sig == "fair:lost"):
                 sig = FAIR_STALL
+            if s["Cfg"]["K"] == "segmented" and sig.split(":", 1)[1] in ("lost", "no-progress", "fifo-order"):
+                # pooled-segment reuse under real goroutines (see C04): messages lost or misplaced
+                sig = SEG_REUSE
             if sig in sig_seen:
                 continue
             sig_seen[sig] = 1
